@@ -69,42 +69,40 @@ Definition set_text (kd : vkind) (text : option str) (z : Z) : setres :=
   | KFloat | KDouble => SetTo (match text with Some t => t | None => [] end)
   end.
 
-Definition kstep_get (kf : keyfile) (kd : vkind) (g k : option str) (def : defval) : out :=
+(* the value found by the econf_getValue macro's lookup *)
+Definition lookup_value (kf : keyfile) (g k : option str) : econf_err + option str :=
+  match lookup kf g k with inl e => inl e | inr e => inr (e_value e) end.
+
+(* what a typed getter makes of the stored text *)
+Definition convert (kd : vkind) (v : option str) : out :=
   match kd with
-  | KString =>
-      match get_string kf g k with
-      | inr v => OStr ECONF_SUCCESS v
-      | inl ECONF_NOKEY => match def with DStr d => OStr ECONF_NOKEY d | _ => ORc ECONF_NOKEY end
-      | inl e => ORc e
-      end
-  | KBool =>
-      match get_bool kf g k with
-      | inr b => OBool ECONF_SUCCESS b
-      | inl ECONF_NOKEY => match def with DBool d => OBool ECONF_NOKEY d | _ => ORc ECONF_NOKEY end
-      | inl e => ORc e
-      end
-  | KFloat | KDouble =>
-      match lookup kf g k with
-      | inr e => match get_float_text (e_value e) with
-                 | inl err => ORc err
-                 | inr t => OText (match kd with KDouble => true | _ => false end) ECONF_SUCCESS (Some t)
-                 end
-      | inl ECONF_NOKEY => ORc ECONF_NOKEY
-      | inl e => ORc e
-      end
-  | _ =>
-      let r := match kd with
-               | KInt => get_int kf g k
-               | KInt64 => get_int64 kf g k
-               | KUInt => get_uint kf g k
-               | _ => get_uint64 kf g k
-               end in
-      match r with
-      | inr z => OInt ECONF_SUCCESS z
-      | inl ECONF_NOKEY => match def with DInt d => OInt ECONF_NOKEY d | _ => ORc ECONF_NOKEY end
-      | inl e => ORc e
-      end
+  | KString => OStr ECONF_SUCCESS v
+  | KBool => match bool_get_text v with inr b => OBool ECONF_SUCCESS b | inl e => ORc e end
+  | KInt => match get_signed_text 32 v with inr z => OInt ECONF_SUCCESS z | inl e => ORc e end
+  | KInt64 => match get_signed_text 64 v with inr z => OInt ECONF_SUCCESS z | inl e => ORc e end
+  | KUInt => match get_unsigned_text 32 v with inr z => OInt ECONF_SUCCESS z | inl e => ORc e end
+  | KUInt64 => match get_unsigned_text 64 v with inr z => OInt ECONF_SUCCESS z | inl e => ORc e end
+  | KFloat => match get_float_text v with inr t => OText false ECONF_SUCCESS (Some t) | inl e => ORc e end
+  | KDouble => match get_float_text v with inr t => OText true ECONF_SUCCESS (Some t) | inl e => ORc e end
   end.
+
+(* econf_get*Value and econf_get*ValueDef: the default is handed out exactly
+   when the lookup answers ECONF_NOKEY, and the code stays ECONF_NOKEY *)
+Definition typed_out (kd : vkind) (r : econf_err + option str) (def : defval) : out :=
+  match r with
+  | inr v => convert kd v
+  | inl ECONF_NOKEY =>
+      match kd, def with
+      | KString, DStr d => OStr ECONF_NOKEY d
+      | KBool, DBool d => OBool ECONF_NOKEY d
+      | (KInt | KInt64 | KUInt | KUInt64), DInt d => OInt ECONF_NOKEY d
+      | _, _ => ORc ECONF_NOKEY
+      end
+  | inl e => ORc e
+  end.
+
+Definition kstep_get (kf : keyfile) (kd : vkind) (g k : option str) (def : defval) : out :=
+  typed_out kd (lookup_value kf g k) def.
 
 Definition all_kinds : list vkind :=
   [KString; KInt; KInt64; KUInt; KUInt64; KBool; KFloat; KDouble].
